@@ -268,3 +268,271 @@ Proof.
     + apply Z.ltb_lt in E. assert (E' : (M <? r) = true) by (apply N.ltb_lt; lia). rewrite E'. reflexivity.
     + apply Z.ltb_ge in E. assert (E' : (M <? r) = false) by (apply N.ltb_ge; lia). rewrite E'. reflexivity.
 Qed.
+
+(* ---- middleware/cache.normalizeFailureZoneKey (purefunc, ascii_strings: dns.CanonicalName as
+   go_canonical_name_ascii — exact for names whose octets are below 128, what the decoder prints):
+   on a fully qualified zone it is the model's `canonical` *)
+Lemma go_ascii_lower_fold s : go_ascii_lower s = fold s.
+Proof. unfold go_ascii_lower, fold. apply map_ext. intros c. reflexivity. Qed.
+Lemma gen_normalizeFailureZoneKey z c :
+  go_is_fqdn_ascii z = true ->
+  go_normalizeFailureZoneKey (mk_T_FailureZoneKey z c) = mk_T_FailureZoneKey (canonical z) c.
+Proof.
+  intros Hf. unfold go_normalizeFailureZoneKey, go_canonical_name_ascii, go_fqdn_ascii, canonical. cbn.
+  rewrite Hf, go_ascii_lower_fold. reflexivity.
+Qed.
+
+(* ---- middleware/cache.walkWireSuffixes (loopfunc; the callback is a pure function of the suffix it is
+   handed): the loop hands `visit` exactly the elements of the model's wire_name_suffixes, in order, and
+   stops at the first one it refuses — or at the walk's natural end (past the last octet, or on the root /
+   a label it cannot step over) *)
+Fixpoint first_false (visit : bytes -> bool) (l : list bytes) : option bytes :=
+  match l with
+  | [] => None
+  | z :: r => if visit z then first_false visit r else Some z
+  end.
+
+Lemma wire_suffixes_fuel : forall f1 f2 w, (length w < f1)%nat -> (length w < f2)%nat ->
+  wire_suffixes f1 w = wire_suffixes f2 w.
+Proof.
+  induction f1 as [|f1 IH]; intros f2 w H1 H2; [lia|]. destruct f2 as [|f2]; [lia|].
+  cbn [wire_suffixes]. destruct w as [|c r]; [reflexivity|]. f_equal.
+  destruct ((c =? 0) || (63 <? c) || (len r <? c)); [reflexivity|].
+  cbn [length] in H1, H2. apply IH; rewrite skipn_length; lia.
+Qed.
+
+Lemma skipn_plus {A} (l : list A) : forall a b, skipn (a + b) l = skipn b (skipn a l).
+Proof.
+  induction l as [|x r IH]; intros a b; [rewrite !skipn_nil; reflexivity|].
+  destruct a as [|a]; [reflexivity|]. cbn [Nat.add skipn]. apply IH.
+Qed.
+
+Lemma wws_loop_spec name visit fuel : forall lf off, (off <= length name)%nat -> (length name - off < lf)%nat ->
+  exists off', (off' <= length name)%nat /\
+    go_walkWireSuffixes_loop1 fuel lf name visit (Z.of_nat off) = (GoRet tt, (name, visit, Z.of_nat off')) /\
+    match first_false visit (wire_suffixes lf (skipn off name)) with
+    | Some z => skipn off' name = z
+    | None => skipn off' name = [] \/ skipn off' name = last (wire_suffixes lf (skipn off name)) []
+    end.
+Proof.
+  induction lf as [|lf IH]; intros off Ho Hf; [lia|].
+  cbn [go_walkWireSuffixes_loop1]. unfold go_len, go_slice_from. rewrite Nat2Z.id.
+  destruct (Z.leb (Z.of_nat (length name)) (Z.of_nat off)) eqn:E; cbn [orb].
+  - apply Z.leb_le in E. assert (off = length name) by lia. subst off.
+    exists (length name). rewrite skipn_all. cbn. repeat split; try lia. left. reflexivity.
+  - apply Z.leb_gt in E. assert (Hlt : (off < length name)%nat) by lia.
+    rewrite (skipn_nth_cons 0 name off) by lia. set (c := nth off name 0). set (r := skipn (S off) name).
+    assert (Hr : length r = (length name - off - 1)%nat) by (unfold r; rewrite skipn_length; lia).
+    cbn [wire_suffixes first_false].
+    destruct (visit (c :: r)) eqn:Ev; cbn [negb].
+    + rewrite go_idx_nth by lia. rewrite Nat2Z.id. fold c.
+      match goal with |- context [if ?b then (GoRet tt, _) else _] =>
+        assert (Hc : b = ((c =? 0) || (63 <? c) || (len r <? c)));
+        [unfold len; rewrite Hr; apply Bool.eq_iff_eq_true;
+         rewrite !orb_true_iff, Z.eqb_eq, !Z.ltb_lt, N.eqb_eq, !N.ltb_lt; lia|]
+      end.
+      rewrite Hc. destruct ((c =? 0) || (63 <? c) || (len r <? c)) eqn:Es.
+      * exists off. rewrite (skipn_nth_cons 0 name off) by lia. fold c r. cbn [first_false last].
+        repeat split; try lia. right. reflexivity.
+      * apply orb_false_iff in Es. destruct Es as [Es Es3]. apply orb_false_iff in Es. destruct Es as [Es1 Es2].
+        apply N.eqb_neq in Es1. apply N.ltb_ge in Es2, Es3. unfold len in Es3. rewrite Hr in Es3.
+        replace (Z.of_nat off + (1 + Z.of_N c))%Z with (Z.of_nat (off + 1 + N.to_nat c)) by lia.
+        destruct (IH (off + 1 + N.to_nat c)%nat) as [off' [Hle [Hrun Hm]]]; [lia|lia|].
+        assert (Hsk : skipn (off + 1 + N.to_nat c) name = skipn (N.to_nat c) r).
+        { unfold r. replace (off + 1 + N.to_nat c)%nat with (S off + N.to_nat c)%nat by lia. apply skipn_plus. }
+        rewrite Hsk in Hm. exists off'. split; [exact Hle|]. split; [exact Hrun|].
+        destruct (first_false visit (wire_suffixes lf (skipn (N.to_nat c) r))) as [z|] eqn:Eff; [exact Hm|].
+        destruct (wire_suffixes lf (skipn (N.to_nat c) r)) as [|z l2] eqn:El.
+        -- cbn [last] in Hm. left. destruct Hm as [Hm|Hm]; exact Hm.
+        -- destruct Hm as [Hm|Hm]; [left; exact Hm|right]. rewrite Hm. reflexivity.
+    + exists off. rewrite (skipn_nth_cons 0 name off) by lia. fold c r. repeat split; try lia.
+Qed.
+
+Lemma gen_walkWireSuffixes fuel name visit : (length name < fuel)%nat ->
+  exists off', (off' <= length name)%nat /\
+    go_walkWireSuffixes_loop1_run fuel name visit 0 = (GoRet tt, (name, visit, Z.of_nat off')) /\
+    match first_false visit (wire_name_suffixes name) with
+    | Some z => go_slice_from name (Z.of_nat off') = z
+    | None => go_slice_from name (Z.of_nat off') = [] \/ go_slice_from name (Z.of_nat off') = last (wire_name_suffixes name) []
+    end.
+Proof.
+  intros Hf. unfold go_walkWireSuffixes_loop1_run, wire_name_suffixes, go_slice_from.
+  destruct (wws_loop_spec name visit fuel fuel 0%nat) as [off' [Hle [Hrun Hm]]]; [lia|lia|].
+  cbn [skipn Z.of_nat] in Hrun, Hm. rewrite (wire_suffixes_fuel fuel (S (length name)) name) in Hm by lia.
+  exists off'. rewrite Nat2Z.id. repeat split; assumption.
+Qed.
+
+(* how the model's lookups use that walk: `first_some f` over the suffix list is the callback-driven walk
+   with the callback "keep going while f finds nothing" (FailureCache.LookupWire, nxDomainCutCache.lookupWire) *)
+Lemma first_some_first_false {B} (f : bytes -> option B) l :
+  first_some f l =
+  match first_false (fun z => match f z with Some _ => false | None => true end) l with
+  | Some z => f z
+  | None => None
+  end.
+Proof.
+  induction l as [|z r IH]; [reflexivity|]. cbn [first_some first_false].
+  destruct (f z) eqn:E; [rewrite E; reflexivity|exact IH].
+Qed.
+
+(* ---- internal/cache.WireNameEqualsPresentation: its label walk (loopfunc; `emit` — a closure that
+   compares with, and advances over, the stored name — enters the translation as a pure callback
+   p : octet -> bool).  The translated walk refuses exactly the malformed shapes the model's wep_loop
+   refuses and hands `emit` exactly the octets of the model's emission list, in order. *)
+Lemma wrap8_mod x : wrap8 x = x mod 256.
+Proof. reflexivity. Qed.
+
+Lemma wep_label_loop_spec p fuel l w off wl c : forall lf n, (n <= length l)%nat -> (length l - n < lf)%nat ->
+  go_WireNameEqualsPresentation_loop2 fuel l lf (Z.of_nat n) w p off wl c =
+  (if forallb p (flat_map wep_byte (skipn n l)) then GoNext else GoRet false, (w, p, off, wl, c)).
+Proof.
+  induction lf as [|lf IH]; intros n Hn Hf; [lia|].
+  cbn [go_WireNameEqualsPresentation_loop2]. unfold go_len.
+  destruct (Z.ltb (Z.of_nat n) (Z.of_nat (length l))) eqn:E.
+  - apply Z.ltb_lt in E. rewrite (skipn_nth_cons 0 l n) by lia. rewrite !go_idx_nth by lia. rewrite Nat2Z.id.
+    set (x := nth n l 0). replace (Z.of_nat n + 1)%Z with (Z.of_nat (S n)) by lia.
+    cbn [flat_map]. rewrite forallb_app. rewrite !IH by lia.
+    unfold wep_byte, wep_backslash, wep_digit0, wep_print_lo, wep_print_hi. rewrite !wrap8_mod.
+    destruct (forallb p (flat_map wep_byte (skipn (S n) l)));
+      destruct (go_isPresentationSpecial x); try destruct ((x <? 32) || (126 <? x));
+      cbn [forallb];
+      repeat match goal with |- context [p ?a] => destruct (p a) end; reflexivity.
+  - apply Z.ltb_ge in E. assert (n = length l) by lia. subst n. rewrite skipn_all. reflexivity.
+Qed.
+
+Lemma N2Z_land a b : Z.of_N (N.land a b) = Z.land (Z.of_N a) (Z.of_N b).
+Proof. destruct a, b; reflexivity. Qed.
+
+(* the walk without the comparison: the octets `emit` is handed, how many wire octets were consumed up to and
+   including the root, and wroteLabel; None = one of the refusals inside the loop *)
+Fixpoint wep_walk (fuel : nat) (rest : bytes) (wrote : bool) : option (bytes * nat * bool) :=
+  match fuel with
+  | O => None
+  | S f =>
+      match rest with
+      | [] => None
+      | c :: r =>
+          if c =? 0 then Some ([], 1%nat, wrote)
+          else if negb (N.land c wep_len_mask =? 0) || (len r <? c) then None
+          else
+            match wep_walk f (skipn (N.to_nat c) r) true with
+            | Some (e, k, wl) =>
+                Some (flat_map wep_byte (firstn (N.to_nat c) r) ++ [wep_dot] ++ e, (1 + N.to_nat c + k)%nat, wl)
+            | None => None
+            end
+      end
+  end.
+
+Lemma wep_walk_loop_spec p fuel w : forall lf off wrote, (off <= length w)%nat -> (length w - off < lf)%nat ->
+  match wep_walk lf (skipn off w) wrote with
+  | Some (e, k, wl) =>
+      if forallb p e
+      then go_WireNameEqualsPresentation_loop1 fuel lf w p (Z.of_nat off) wrote = (GoNext, (w, p, Z.of_nat (off + k), wl))
+      else fst (go_WireNameEqualsPresentation_loop1 fuel lf w p (Z.of_nat off) wrote) = GoRet false
+  | None => fst (go_WireNameEqualsPresentation_loop1 fuel lf w p (Z.of_nat off) wrote) = GoRet false
+  end.
+Proof.
+  induction lf as [|lf IH]; intros off wrote Ho Hf; [lia|].
+  cbn [go_WireNameEqualsPresentation_loop1 wep_walk]. unfold go_len.
+  destruct (Z.leb (Z.of_nat (length w)) (Z.of_nat off)) eqn:E.
+  - apply Z.leb_le in E. assert (off = length w) by lia. subst off. rewrite skipn_all. reflexivity.
+  - apply Z.leb_gt in E. assert (Hlt : (off < length w)%nat) by lia.
+    rewrite (skipn_nth_cons 0 w off) by lia. rewrite go_idx_nth by lia. rewrite Nat2Z.id.
+    set (c := nth off w 0). set (r := skipn (S off) w).
+    assert (Hr : length r = (length w - off - 1)%nat) by (unfold r; rewrite skipn_length; lia).
+    destruct (c =? 0) eqn:Ec.
+    + apply N.eqb_eq in Ec. rewrite Ec. cbn [Z.of_N Z.eqb forallb]. f_equal. f_equal. f_equal. lia.
+    + apply N.eqb_neq in Ec. assert (Ez : Z.eqb (Z.of_N c) 0 = false) by (apply Z.eqb_neq; lia). rewrite Ez.
+      (* whatever way the refusal test is written, it says what the model's test says *)
+      match goal with |- context [if ?b then (GoRet false, _) else _] =>
+        assert (Hc : b = (negb (N.land c wep_len_mask =? 0) || (len r <? c)));
+        [unfold wep_len_mask, len; rewrite Hr; change 192%Z with (Z.of_N 192); rewrite <- N2Z_land;
+         apply Bool.eq_iff_eq_true;
+         rewrite !orb_true_iff, !negb_true_iff, Z.eqb_neq, N.eqb_neq, Z.ltb_lt, N.ltb_lt; lia|]
+      end.
+      rewrite Hc. destruct (negb (N.land c wep_len_mask =? 0) || (len r <? c)) eqn:Es; [reflexivity|].
+      apply orb_false_iff in Es. destruct Es as [_ Es]. apply N.ltb_ge in Es. unfold len in Es. rewrite Hr in Es.
+      (* the label: wireName[off+1 : off+1+c] *)
+      assert (Hsl : go_slice w (Z.of_nat off + 1) (Z.of_nat off + 1 + Z.of_N c) = firstn (N.to_nat c) r).
+      { unfold go_slice, r. f_equal; [lia|f_equal; lia]. }
+      rewrite Hsl.
+      pose proof (wep_label_loop_spec p fuel (firstn (N.to_nat c) r) w (Z.of_nat off + 1)%Z wrote (Z.of_N c)
+                    (S (length (firstn (N.to_nat c) r))) 0%nat) as Hl.
+      cbn [Z.of_nat skipn] in Hl. rewrite Hl by lia. clear Hl.
+      assert (Hsk : skipn (off + 1 + N.to_nat c) w = skipn (N.to_nat c) r).
+      { unfold r. replace (off + 1 + N.to_nat c)%nat with (S off + N.to_nat c)%nat by lia. apply skipn_plus. }
+      specialize (IH (off + 1 + N.to_nat c)%nat true). rewrite Hsk in IH.
+      replace (Z.of_nat off + 1 + Z.of_N c)%Z with (Z.of_nat (off + 1 + N.to_nat c)) by lia.
+      destruct (forallb p (flat_map wep_byte (firstn (N.to_nat c) r))) eqn:El.
+      * unfold wep_dot in *. destruct (p 46) eqn:Ed; cbn [negb].
+        -- destruct (wep_walk lf (skipn (N.to_nat c) r) true) as [[[e k] wl]|].
+           ++ rewrite !forallb_app, El. cbn [forallb]. rewrite Ed. cbn [andb].
+              destruct (forallb p e).
+              ** rewrite IH by lia. f_equal. f_equal. f_equal. f_equal. lia.
+              ** apply IH; lia.
+           ++ apply IH; lia.
+        -- destruct (wep_walk lf (skipn (N.to_nat c) r) true) as [[[e k] wl]|]; [|reflexivity].
+           rewrite !forallb_app, El. cbn [forallb]. rewrite Ed. cbn [andb]. reflexivity.
+      * destruct (wep_walk lf (skipn (N.to_nat c) r) true) as [[[e k] wl]|]; [|reflexivity].
+        rewrite !forallb_app, El. reflexivity.
+Qed.
+
+(* the hand-written wep_loop is that walk followed by the sequential comparison `emit` performs: the name is
+   accepted iff the walk consumed the whole wire name and the emitted octets (plus "." for the bare root) use
+   the stored name up exactly *)
+Lemma wep_loop_walk : forall fuel rest wrote s,
+  wep_loop fuel rest wrote s =
+  match wep_walk fuel rest wrote with
+  | Some (e, k, wl) =>
+      (k =? length rest)%nat &&
+      match wep_emits e s with
+      | Some s' => if wl then (match s' with [] => true | _ => false end)
+                   else (match wep_emit wep_dot s' with Some [] => true | _ => false end)
+      | None => false
+      end
+  | None => false
+  end.
+Proof.
+  induction fuel as [|fuel IH]; intros rest wrote s; [reflexivity|].
+  cbn [wep_loop wep_walk]. destruct rest as [|c r]; [reflexivity|].
+  destruct (c =? 0) eqn:Ec.
+  - destruct r as [|y r']; cbn [length Nat.eqb andb wep_emits]; reflexivity.
+  - destruct (negb (N.land c wep_len_mask =? 0) || (len r <? c)) eqn:Es; [reflexivity|].
+    apply orb_false_iff in Es. destruct Es as [_ Es]. apply N.ltb_ge in Es. unfold len in Es.
+    rewrite wep_label_emits.
+    assert (Hk : forall k, ((1 + N.to_nat c + k =? length (c :: r)) = (k =? length (skipn (N.to_nat c) r)))%nat).
+    { intros k. cbn [length]. rewrite skipn_length. apply Bool.eq_iff_eq_true. rewrite !Nat.eqb_eq. lia. }
+    destruct (wep_emits (flat_map wep_byte (firstn (N.to_nat c) r)) s) as [s'|] eqn:E1.
+    + destruct (wep_emit wep_dot s') as [s''|] eqn:E2.
+      * rewrite (IH (skipn (N.to_nat c) r) true s'').
+        destruct (wep_walk fuel (skipn (N.to_nat c) r) true) as [[[e k] wl]|]; [|reflexivity].
+        rewrite Hk, !wep_emits_app, E1. cbn [app wep_emits]. rewrite E2. reflexivity.
+      * destruct (wep_walk fuel (skipn (N.to_nat c) r) true) as [[[e k] wl]|]; [|reflexivity].
+        rewrite !wep_emits_app, E1. cbn [app wep_emits]. rewrite E2. rewrite andb_false_r. reflexivity.
+    + destruct (wep_walk fuel (skipn (N.to_nat c) r) true) as [[[e k] wl]|]; [|reflexivity].
+      rewrite !wep_emits_app, E1. rewrite andb_false_r. reflexivity.
+Qed.
+
+(* the tie: with more fuel than octets, the translated walk started at offset 0 ends "GoNext" (fall out of the
+   loop) with off just past the root exactly when the model's walk succeeds and the callback accepted every
+   octet of its emission list; every other run returns false from inside the loop *)
+Lemma gen_WireNameEqualsPresentation_walk fuel w p : (length w < fuel)%nat ->
+  match wep_walk (S (length w)) w false with
+  | Some (e, k, wl) =>
+      if forallb p e
+      then go_WireNameEqualsPresentation_loop1_run fuel w p 0 false = (GoNext, (w, p, Z.of_nat k, wl))
+      else fst (go_WireNameEqualsPresentation_loop1_run fuel w p 0 false) = GoRet false
+  | None => fst (go_WireNameEqualsPresentation_loop1_run fuel w p 0 false) = GoRet false
+  end.
+Proof.
+  intros Hf. unfold go_WireNameEqualsPresentation_loop1_run.
+  assert (Hw : forall f1 f2 rest wrote, (length rest < f1)%nat -> (length rest < f2)%nat ->
+               wep_walk f1 rest wrote = wep_walk f2 rest wrote).
+  { induction f1 as [|f1 IH]; intros f2 rest wrote H1 H2; [lia|]. destruct f2 as [|f2]; [lia|].
+    cbn [wep_walk]. destruct rest as [|c r]; [reflexivity|]. destruct (c =? 0); [reflexivity|].
+    destruct (negb (N.land c wep_len_mask =? 0) || (len r <? c)); [reflexivity|].
+    cbn [length] in H1, H2. rewrite (IH f2) by (rewrite skipn_length; lia). reflexivity. }
+  rewrite (Hw (S (length w)) fuel) by lia.
+  pose proof (wep_walk_loop_spec p fuel w fuel 0%nat false) as Hs. cbn [skipn Z.of_nat Nat.add] in Hs.
+  apply Hs; lia.
+Qed.
